@@ -321,6 +321,40 @@ func oneLeaf(t irgen.Term) []irgen.Term {
 	return out
 }
 
+func reducedLeaves(t irgen.Term) bool {
+	if len(t.Sub) == 0 {
+		switch t.String() {
+		case "string", "int64", "enum(str)", "null":
+			return true
+		}
+		return false
+	}
+	for _, s := range t.Sub {
+		if !reducedLeaves(s) {
+			return false
+		}
+	}
+	return true
+}
+
+// mirror reverses the branch lists of every union and intersection of t.
+func mirror(t irgen.Term) irgen.Term {
+	if len(t.Sub) == 0 {
+		return t
+	}
+	c := t
+	c.Sub = make([]irgen.Term, len(t.Sub))
+	for i, s := range t.Sub {
+		c.Sub[i] = mirror(s)
+	}
+	if t.K == "disj" || t.K == "inter" {
+		for i, j := 0, len(c.Sub)-1; i < j; i, j = i+1, j-1 {
+			c.Sub[i], c.Sub[j] = c.Sub[j], c.Sub[i]
+		}
+	}
+	return c
+}
+
 func enumFlavours() []irgen.Term {
 	return []irgen.Term{irgen.Enum("numname"), irgen.Enum("strnum"), irgen.Enum("odd"), irgen.Enum("space"), irgen.Enum("plus"), irgen.Enum("noname")}
 }
@@ -436,6 +470,33 @@ func terms(thorough bool) []irgen.Term {
 	d3 := irgen.Disj(irgen.Ref(irgen.Pkg+".S"), irgen.Ref(irgen.Pkg+".T"), irgen.Null())
 	d3.Disc = true
 	all = append(all, wrap(d3)...)
+
+	// branch ORDER: the grammar always writes `T | null` and `T | U` with the
+	// wrapped term first. Every term is also enumerated with the branches of all
+	// its unions and intersections reversed (`null | T`, `U | T`, `T & S`), and
+	// the flat three-branch unions in all six orders: a pass must not treat the
+	// first element of a branch list differently from the others.
+	for _, l := range leaves {
+		for _, o := range dw[:2] {
+			if o.String() == l.String() {
+				continue
+			}
+			n := irgen.Null()
+			for _, pm := range [][]irgen.Term{{l, n, o}, {n, l, o}, {o, n, l}} { // l,o,n above; o,l,n and n,o,l by mirroring
+				all = append(all, wrap(irgen.Disj(pm...))...)
+			}
+		}
+	}
+	for _, t := range append([]irgen.Term{}, all...) {
+		// the deep families are enumerated in the written order only, except
+		// (thorough) depth 4 over the reduced leaf set {string,int64,enum}
+		if t.Depth() > 3 && !(thorough && t.Depth() == 4 && reducedLeaves(t)) {
+			continue
+		}
+		if m := mirror(t); m.String() != t.String() {
+			all = append(all, m)
+		}
+	}
 
 	seen := map[string]bool{}
 	var out, queue []irgen.Term
@@ -701,9 +762,12 @@ func main() {
 		os.Exit(0)
 	}
 
-	deadline := time.Now().Add(100 * time.Second)
+	// Budget guard only (quick needs ~3 CPU-minutes = ~15 s on 16 idle cores,
+	// thorough ~25 CPU-minutes); generous because the machine is shared and a run
+	// cut short is no longer exhaustive. Hitting it ends with exit 0, exhaustive:false.
+	deadline := time.Now().Add(10 * time.Minute)
 	if r.Thorough() {
-		deadline = time.Now().Add(17 * time.Minute)
+		deadline = time.Now().Add(40 * time.Minute)
 	}
 	ts := terms(r.Thorough())
 	var cases []testCase
@@ -853,7 +917,7 @@ func main() {
 		"per_language_clause_repaired_by_chain":    repaired,
 		"per_language_clause_failing_cases":        failing,
 		"distinct_outcome_classes":                 len(outcomeClasses),
-		"explanation":                              "every type term of grammar I (depth " + depth + "; plus depth 4 over {string,int64,enum} and towers of depth 5 (quick) / 6 (thorough) over {string}; enums as member sequences of length 1..3 over {plain, numeric, negative} names, string- and int-typed; unions of plain/digit-only string constants in every order; flat 3-branch unions with null, maps with non-string index types, two-field structs; closed under one-step reductions) is placed as the type of object Root, as a required and as an optional field of struct Root, as a required field next to an alias object Al = ref(p.S), and (terms up to the multi-occurrence depth) TWICE or THRICE in one schema with different requiredness in both orders: two/three fields of Root, or Root and a second object Zed (package p with support objects S,T,E,A,K); for each and each language the real codegen.Pipeline.ContextForLanguage is executed (language.CompilerPasses() through compiler.Passes.Process); chain errors are counted and not judged, panics are recorded as crash:<pass>; on success the resulting schemas are judged by a complete walker (fields, array elements, map index and value, union and intersection branches, enum member types); failing cases are re-run pass by pass to name the pass after which the construct sits where it ends up",
+		"explanation":                              "every type term of grammar I (depth " + depth + "; plus depth 4 over {string,int64,enum} and towers of depth 5 (quick) / 6 (thorough) over {string}; enums as member sequences of length 1..3 over {plain, numeric, negative} names, string- and int-typed; unions of plain/digit-only string constants in every order; every term up to depth 3 (thorough: and depth 4 over {string,int64,enum}) also with the branch lists of its unions/intersections reversed (null | T, U | T); flat 3-branch unions with null in all orders, maps with non-string index types, two-field structs; closed under one-step reductions) is placed as the type of object Root, as a required and as an optional field of struct Root, as a required field next to an alias object Al = ref(p.S), and (terms up to the multi-occurrence depth) TWICE or THRICE in one schema with different requiredness in both orders: two/three fields of Root, or Root and a second object Zed (package p with support objects S,T,E,A,K); for each and each language the real codegen.Pipeline.ContextForLanguage is executed (language.CompilerPasses() through compiler.Passes.Process); chain errors are counted and not judged, panics are recorded as crash:<pass>; on success the resulting schemas are judged by a complete walker (fields, array elements, map index and value, union and intersection branches, enum member types); failing cases are re-run pass by pass to name the pass after which the construct sits where it ends up",
 	}
 	if !exhaustive {
 		cov["completed_bound"] = fmt.Sprintf("%d of %d cases in work order (smallest first) before the internal deadline", completed, len(cases))
